@@ -156,15 +156,54 @@ impl<'a> Ctx<'a> {
     }
 }
 
+// ---------------------------------------------------------------------------------------- hang watchdog
+// A parallel program that deadlocks on the single worker (a lock taken twice, a guard held across a nested lock)
+// never returns. The run in progress is published here; a watchdog thread turns a run that has not returned
+// after VERIF_HANG_SECS (default 60; the programs run in micro- to milliseconds) into a violation with its
+// replay data and ends the shard.
+struct Watched { since: std::time::Instant, tag: String, label: String, program: Vec<String>, input: J }
+static WATCH: std::sync::Mutex<Option<Watched>> = std::sync::Mutex::new(None);
+fn watch_begin(u: &Unit, v: &Variant, facts: &[Fact]) {
+    if !matches!(v.kind, crate::families::MacroKind::AscentPar | crate::families::MacroKind::AscentRunPar) { return; }
+    *WATCH.lock().unwrap() = Some(Watched { since: std::time::Instant::now(), tag: u.tag.clone(), label: v.label.clone(), program: variant_items(v), input: J::Arr(facts.iter().map(|f| fact_json(u, f)).collect()) });
+}
+fn watch_end() { if let Ok(mut g) = WATCH.lock() { *g = None; } }
+fn start_watchdog(family: String, tier: String, mode: String, shard: usize, start: std::time::Instant) {
+    let limit = std::env::var("VERIF_HANG_SECS").ok().and_then(|s| s.parse::<u64>().ok()).unwrap_or(60);
+    std::thread::spawn(move || loop {
+        std::thread::sleep(std::time::Duration::from_millis(500));
+        let g = WATCH.lock().unwrap();
+        if let Some(w) = g.as_ref() {
+            if w.since.elapsed().as_secs() >= limit {
+                let thorough = tier == "thorough";
+                let units = crate::families::units(&family, thorough);
+                let ui = units.iter().position(|u| u.tag == w.tag && u.variants.iter().any(|v| v.label == w.label && variant_items(v) == w.program)).unwrap_or(usize::MAX);
+                let mut rep = Report::new(&mode, &format!("{}-{}-s{}", family, tier, shard));
+                rep.tier = std::env::var("VERIF_TIER").unwrap_or_else(|_| tier.clone());
+                rep.cap("the shard was stopped at the first run that did not terminate; its other results are not reported");
+                let replay = obj(vec![("family", family.clone().into()), ("tier", tier.clone().into()), ("mode", mode.clone().into()), ("unit", (ui as u64).into()), ("tag", w.tag.clone().into()),
+                    ("variant", w.label.clone().into()), ("program", w.program.clone().into()), ("case", obj(vec![("input", w.input.clone())]))]);
+                rep.violate(format!("{}|{}|{}|{}|does-not-terminate", mode, family, w.tag, w.label),
+                    format!("{} [{}]: run() has not returned after {} s on input {} (deadlock or livelock on a one-worker pool) -- program: {}", w.tag, w.label, limit, w.input.to_string(), w.program.join(" ")), replay);
+                let code = rep.finish(start);
+                std::process::exit(code);
+            }
+        }
+    });
+}
+
 /// runs one variant on one input; returns the dumped relations (variant relation order mapped back
 /// to the reference program's relation order) or the panic message
 pub fn run_once(u: &Unit, v: &Variant, make: fn() -> Box<dyn Instance>, facts: &[Fact]) -> Result<Vec<Vec<Tuple>>, String> {
-    catch(|| {
+    watch_begin(u, v, facts);
+    let r = catch(|| {
         let mut inst = make();
         for (r, t) in facts { inst.push(v.rel_map[*r], t); }
         inst.run();
         (0..u.prog.rels.len()).map(|r| inst.dump(v.rel_map[r])).collect()
-    })
+    });
+    watch_end();
+    r
 }
 
 pub fn as_set(rows: &[Tuple]) -> BTreeSet<Tuple> { rows.iter().cloned().collect() }
@@ -379,6 +418,13 @@ pub enum Step { Run, Add(Vec<Fact>) }
 
 /// runs a history on one instance, dumping all relations after every Run
 pub fn run_history(u: &Unit, v: &Variant, make: fn() -> Box<dyn Instance>, hist: &[Step]) -> Result<Vec<Vec<Vec<Tuple>>>, String> {
+    let all: Vec<Fact> = hist.iter().flat_map(|s| match s { Step::Add(fs) => fs.clone(), Step::Run => vec![] }).collect();
+    watch_begin(u, v, &all);
+    let r = run_history_inner(u, v, make, hist);
+    watch_end();
+    r
+}
+fn run_history_inner(u: &Unit, v: &Variant, make: fn() -> Box<dyn Instance>, hist: &[Step]) -> Result<Vec<Vec<Vec<Tuple>>>, String> {
     catch(|| {
         let mut inst = make();
         let mut snaps = vec![];
@@ -659,6 +705,7 @@ fn main_inner(family: &str, tier: &str, shard: usize, nshards: usize, table: &[E
     let mode = args.iter().position(|a| a == "--mode").map(|i| args[i + 1].clone()).unwrap_or_else(|| "C01".into());
     let thorough = tier == "thorough";
     let units = crate::families::units(family, thorough);
+    start_watchdog(family.to_string(), tier.to_string(), mode.clone(), shard, start);
     let mut rep = Report::new(&mode, &format!("{}-{}-s{}", family, tier, shard));
     rep.tier = std::env::var("VERIF_TIER").unwrap_or_else(|_| tier.to_string());
     // the generator and this binary must agree on the enumeration and on the printed text
